@@ -543,6 +543,63 @@ func (g *genState) batchRangeInterleave(r *hx.RNG, ops []Op) []Op {
 	return append(ops, Op{K: "bclose", H: h})
 }
 
+// motif: a prefix scan WITHOUT upper bound (NewIterator(prefix, false): the prefix is only the lower bound) over every
+// kind of source - database, indexed batch, snapshot - with keys below the prefix, under it and ABOVE its range in
+// the database and, for the batch, among the batch's own writes; walked to the end, then Seek beyond + Prev
+func (g *genState) prefixNoBoundScan(r *hx.RNG, ops []Op) []Op {
+	hexKey := func(n int) string { // a non-empty key ("-" stands for the empty one in this notation)
+		for {
+			if k := genKey(r, n); k != "-" && k != "" {
+				return k
+			}
+		}
+	}
+	p := hexKey(1)
+	under1, under2 := p+hexKey(1), p+hexKey(2)
+	above := hexKey(2)
+	for tries := 0; (above <= p || strings.HasPrefix(above, p)) && tries < 20; tries++ {
+		above = "ff" + hexKey(1)
+	}
+	for _, k := range []string{under1, above, under2} {
+		ops = append(ops, Op{K: "put", A: k, B: hexKey(2)})
+		g.putKeys = append(g.putKeys, k)
+	}
+	walk := func(ops []Op, it int) []Op {
+		ops = append(ops, Op{K: "first", H: it})
+		for j := 0; j < 4; j++ {
+			ops = append(ops, Op{K: "next", H: it})
+		}
+		return append(ops, Op{K: "seek", H: it, A: "ffffffff"}, Op{K: "prev", H: it}, Op{K: "seek", H: it, A: above}, Op{K: "iclose", H: it})
+	}
+	newIter := func(ops []Op, src string, h int) ([]Op, int) {
+		g.iters = append(g.iters, false) // closed by walk
+		if src == "db" {
+			g.iterSrc = append(g.iterSrc, "db")
+		} else {
+			g.iterSrc = append(g.iterSrc, src+strconv.Itoa(h))
+		}
+		return append(ops, Op{K: "newiter", Src: src, H: h, A: p, Flag: false}), len(g.iters) - 1
+	}
+	var it int
+	ops, it = newIter(ops, "db", 0)
+	ops = walk(ops, it)
+	// indexed batch with one write above the range and one under the prefix
+	g.batches = append(g.batches, false)
+	g.indexed = append(g.indexed, true)
+	h := len(g.batches) - 1
+	ops = append(ops, Op{K: "newbatch", Flag: true}, Op{K: "bw", H: h, W: "put " + above + "00 " + hexKey(1)}, Op{K: "bw", H: h, W: "put " + p + "ff " + hexKey(1)})
+	ops, it = newIter(ops, "b", h)
+	ops = walk(ops, it)
+	ops = append(ops, Op{K: "bclose", H: h})
+	// snapshot
+	g.snaps = append(g.snaps, false)
+	sh := len(g.snaps) - 1
+	ops = append(ops, Op{K: "newsnap"})
+	ops, it = newIter(ops, "s", sh)
+	ops = walk(ops, it)
+	return append(ops, Op{K: "sclose", H: sh})
+}
+
 // closeItersOf emits iclose for every open iterator created on the given source
 func (g *genState) closeItersOf(src string, ops []Op) []Op {
 	for i, open := range g.iters {
@@ -578,6 +635,10 @@ func genCase(r *hx.RNG, n int, strictBias int) []Op {
 		}
 		if r.Chance(3) {
 			ops = g.batchRangeInterleave(r, ops)
+			continue
+		}
+		if r.Chance(2) {
+			ops = g.prefixNoBoundScan(r, ops)
 			continue
 		}
 		x := r.Intn(100)
